@@ -37,8 +37,8 @@ func runC17(w *World, r *Report) {
 			cnt := incs[0].Value()
 			isCnt := func(v ssa.Value) bool { return v == ssa.Value(cnt) }
 			isAtt := pathRe(`^param:p\.attempts$`)
-			key := incs[0].Common().Args[1]
-			okKey := isCallTo0(key, "retryProcessor).getCounterKey") && strings.HasSuffix(Path(key), "GetSequenceID(param:APIStream))") && rems[0].Common().Args[1] == key
+			key := unhelp(incs[0].Common().Args[1])
+			okKey := isCallTo0(key, "retryProcessor).getCounterKey") && strings.HasSuffix(Path(key), "GetSequenceID(param:APIStream))") && unhelp(rems[0].Common().Args[1]) == key
 			r.Check(okKey, "R1", "Execute/same-sequence-key", posOf(incs[0]), "counter key = getCounterKey(APIStream.GetSequenceID()) for both increment and removal (key %s)", trunc(Path(key), 110))
 			nRetry, nFail := 0, 0
 			for _, alt := range ReturnAlts(ex, 0) {
@@ -181,7 +181,15 @@ func runC17(w *World, r *Report) {
 					r.Check(inRange(alt.Conds), "R2", "OnResponse/retry-only-in-range", posOf(alt.Ret), "a retry action is returned only on From <= status <= To")
 				case "NoOpAction":
 					if inRange(alt.Conds) {
-						ok := condsHave(alt.Conds, false, found(false)) && condsHave(alt.Conds, false, func(v ssa.Value) bool { return isCallTo0(v, "OnResponse).IsNewSequence") })
+						// "not new": !onResponse.IsNewSequence(), or its meaning written out (ID != SequenceID)
+						notNew := condsHave(alt.Conds, false, func(v ssa.Value) bool { return isCallTo0(v, "OnResponse).IsNewSequence") })
+						for _, rel := range relsOfConds(alt.Conds) {
+							l, rr := typedField(rel.L), typedField(rel.R)
+							if rel.Op == "!=" && (l == "OnResponse.ID" && rr == "OnResponse.SequenceID" || l == "OnResponse.SequenceID" && rr == "OnResponse.ID") {
+								notNew = true
+							}
+						}
+						ok := condsHave(alt.Conds, false, found(false)) && notNew
 						r.Check(ok, "R2", "OnResponse/unknown-old-sequence-not-retried", posOf(alt.Ret), "inside a range NoOp is returned exactly for a sequence that has no state and is not new")
 					} else {
 						r.Check(tailDel != nil && domInstr(tailDel, alt.Ret), "R2", "OnResponse/out-of-range-clears-state", posOf(alt.Ret), "a status outside every range deletes the sequence state before NoOp is returned")
